@@ -288,26 +288,52 @@ Record v1doc := {
   d1_default : option v1prop                    (* None = null / absent *)
 }.
 
+(* A document that is a bare JSON value instead of an object (surrounding white space allowed). *)
+Inductive bare :=
+| BNull                         (* null: the metadata probe accepts it (nothing is set: version 0) *)
+| BValue.                       (* true / false / a number / a string / an array: the metadata probe fails *)
+
 Inductive doc :=
-| DUnavailable                  (* the configuration source cannot be read *)
+| DUnavailable                  (* the configuration source cannot be read (or no accounts to ask for) *)
 | DMalformed                    (* not JSON, or a value of the wrong JSON type *)
 | DVersion (n : N)              (* "version": n with n not in {0, 2} *)
 | DV1 (d : v1doc)
-| DV2 (d : v2doc).
+| DV2 (d : v2doc)
+| DBare (b : bare).
 
-Inductive config := CV1 (d : v1doc) | CV2 (d : v2doc).
+(* What blockrelay.UnmarshalJSON hands back with a nil error: a configuration, or — only if the
+   decoder were to decode into a pointer that encoding/json may leave nil — a nil pointer to v1.ExecutionConfig
+   inside a non-nil ExecutionConfigurator interface ([CNilV1]). *)
+Inductive config := CV1 (d : v1doc) | CV2 (d : v2doc) | CNilV1.
 
 Inductive cfg_err := CEDecode | CELookup.
 
 Definition has_null_prelay (p : proposer) : bool :=
   existsb (fun r => match prl_entry r with None => true | Some _ => false end) (pp_relays p).
 
-(* [null_guard] = the decoders reject null relay / proposer / proposer-relay entries (776ef9a). *)
-Definition decode (null_guard : bool) (d : doc) : outcome config cfg_err :=
+(* what the UnmarshalJSON method of v1.ExecutionConfig sees for the document `null`: json.Unmarshal of null
+   into executionConfigJSON sets nothing *)
+Definition v1doc_of_null : v1doc := {| d1_fields_ok := true; d1_proposers := []; d1_default := None |}.
+
+(* [null_guard] = the decoders reject null relay / proposer / proposer-relay entries (776ef9a).
+   [by_value]   = blockrelay.UnmarshalJSON decodes into a local struct value and returns its address
+                  (the code as it is), so that the version's own UnmarshalJSON runs for every
+                  document, `null` included; [false] = it decodes into a nil pointer that
+                  encoding/json allocates: for `null` the pointer is left nil, no UnmarshalJSON runs,
+                  and the nil pointer is returned with a nil error. *)
+Definition decode_gen (null_guard by_value : bool) (d : doc) : outcome config cfg_err :=
   match d with
   | DUnavailable => Err CEDecode
   | DMalformed => Err CEDecode
   | DVersion _ => Err CEDecode
+  | DBare BValue => Err CEDecode                      (* "failed to unmarshal metadata" *)
+  | DBare BNull =>                                    (* metadata: version 0, the v1 branch *)
+      if by_value then
+        match d1_default v1doc_of_null with
+        | None => Err CEDecode                        (* "default config missing" *)
+        | Some _ => Ok (CV1 v1doc_of_null)
+        end
+      else Ok CNilV1
   | DV1 d1 =>
       if negb (d1_fields_ok d1) then Err CEDecode
       else match d1_default d1 with
@@ -321,6 +347,7 @@ Definition decode (null_guard : bool) (d : doc) : outcome config cfg_err :=
       else if null_guard && existsb (fun p => match p with None => false | Some p => has_null_prelay p end) (d2_proposers d2) then Err CEDecode
       else Ok (CV2 d2)
   end.
+Definition decode (null_guard : bool) : doc -> outcome config cfg_err := decode_gen null_guard true.
 
 (* setInitialRelayOptions: setRelayConfig dereferences every base relay entry *)
 Fixpoint initial_relays (rs : list (N * bool)) : outcome (list N) cfg_err :=
@@ -414,13 +441,33 @@ Definition lookup (nil_guard : bool) (c : option config) (account pubkey : N) : 
   | None => Ok []                                              (* blockrelay ProposerConfig: no configuration, fallback *)
   | Some (CV1 d) => lookup1 nil_guard d pubkey
   | Some (CV2 d) => lookup2 d account pubkey
+  | Some CNilV1 => Panic                                       (* e.ProposerConfigs on a nil receiver *)
   end.
 
-(* fetchExecutionConfig: a failed fetch keeps the current configuration *)
-Definition refresh (null_guard : bool) (cur : option config) (d : doc) : option config :=
-  match decode null_guard d with
+(* fetchExecutionConfig: a failed fetch keeps the current configuration.  Its second test,
+   `executionConfig == nil`, compares the *interface* with nil: it is true only for the (nil, nil)
+   answer of obtainExecutionConfig (no public keys), never for a value UnmarshalJSON returned — a nil
+   pointer inside the interface included.  So whatever [decode_gen] accepts is installed. *)
+Definition refresh_gen (null_guard by_value : bool) (cur : option config) (d : doc) : option config :=
+  match decode_gen null_guard by_value d with
   | Ok c => Some c
   | _ => cur
+  end.
+Definition refresh (null_guard : bool) : option config -> doc -> option config := refresh_gen null_guard true.
+
+(* submitValidatorRegistrations / submitValidatorRegistrationsForAccounts with the configuration in
+   force, for the one validating account of the tie (account 1, public key 1): no configuration ->
+   nothing to do; executionConfig.ProposerConfig fails -> "Failed to generate registrations for
+   validator; continuing with the others"; otherwise one registration per relay of the answer, sent
+   to every relay whose address FetchBuilderClient accepts (an empty address is refused there).
+   Result: the relays that receive a registration. *)
+Definition reg_account : N := 1.
+Definition reg_pubkey : N := 1.
+Definition registration_round (c : option config) : outcome (list N) cfg_err :=
+  match lookup true c reg_account reg_pubkey with
+  | Ok l => Ok (filter (fun a => negb (a =? 0)) l)
+  | Err _ => Ok []
+  | Panic => Panic
   end.
 
 Definition refresh_all (null_guard : bool) (cur : option config) (ds : list doc) : option config :=
